@@ -153,8 +153,20 @@ def run(chk):
 
 
 def run_config(chk, facts):
-    entry = chk.anchor("C13-a", "skrifa::color::traversal::traverse_with_callbacks",
-                       facts.body("skrifa::color::traversal::traverse_with_callbacks"))
+    # the two crate-private traversal entry points are the functions of the traversal module that the public
+    # ColorGlyph::paint calls: the COLRv1 one takes the resolved paint, the COLRv0 one a layer range
+    paint0 = facts.body("skrifa::color::ColorGlyph::<'a>::paint")
+    ENTRY_NAME, V0_NAME = "skrifa::color::traversal::traverse_with_callbacks", "skrifa::color::traversal::traverse_v0_range"
+    if paint0 is not None:
+        cal = sorted({t.callee for _, t in paint0.calls() if t.callee.startswith("skrifa::color::traversal::")})
+        if len(cal) == 2 and not (ENTRY_NAME in cal and V0_NAME in cal):
+            with_paint = [c for c in cal if facts.body(c, _fuzzy=False) is not None
+                          and any("ResolvedPaint" in facts.body(c, _fuzzy=False).locals[i][0]
+                                  for i in range(1, facts.body(c, _fuzzy=False).argc + 1))]
+            if len(with_paint) == 1:
+                ENTRY_NAME = with_paint[0]
+                V0_NAME = [c for c in cal if c != ENTRY_NAME][0]
+    entry = chk.anchor("C13-a", ENTRY_NAME, facts.body(ENTRY_NAME))
     # The recursive traversal is the entry itself or -- since the fix for F31 -- the function a thin wrapper forwards
     # to: a wrapper has no self call and exactly one call into the module, to which it passes its own parameters, in
     # order, as the leading arguments (so parameter positions -- painter, decycler, depth -- carry over).
@@ -170,7 +182,7 @@ def run_config(chk, facts):
         twc = chk.anchor("C13-a", "the recursive function traverse_with_callbacks forwards to", fw)
     entry_paths = {entry.path, twc.path}
     paint = chk.anchor("C13-a", "ColorGlyph::paint", facts.body("skrifa::color::ColorGlyph::<'a>::paint"))
-    v0 = chk.anchor("C13-a", "traverse_v0_range", facts.body("skrifa::color::traversal::traverse_v0_range"))
+    v0 = chk.anchor("C13-a", "traverse_v0_range", facts.body(V0_NAME))
 
     # ---- C13-a balance --------------------------------------------------------------------
     chk.rule("C13-a", "T-STATE: stack automaton over push_*/pop_* calls on the caller's painter; every exit not "
